@@ -28,7 +28,7 @@ func (Prop) Configs(tier string) []string { return []string{"c-default", "c-pure
 func (Prop) SelfTest() error              { return macref.SelfTest() }
 func (Prop) Rule() string {
 	return "E2 (definition, size): 8 schemes x ciphers {SM4 (library implementation vs independent reference SM4), AES-128, DES, 3DES} x 2-3 fixed keys x paddings {method 2, method 3 where selectable} " +
-		"x every tag size 1..bs x every message length 0..4*bs+1 x {exact capacity, spare capacity}: tag = reference output block truncated as the scheme defines, len(tag) = Size() = requested; default-padding constructors = method 2. " +
+		"x every tag size 1..bs x every message length 0..4*bs+1 x 7 capacity modes (cap=len; ample; exactly / one below / one above the method-2 padded length; exactly / one above the method-3 total; spare bytes dirty): tag = reference output block truncated as the scheme defines, len(tag) = Size() = requested; default-padding constructors = method 2. " +
 		"E1 CMAC: engine.BFS over histories of {Write(c) c in {0,1,bs-1,bs,bs+1,2bs,2bs+1}, Sum, Reset, MAC(m) for 5 lengths} on one real cbcmac.NewCMAC object (depth 5 quick / 8 thorough, per cipher and for full and half tag size), " +
 		"after every step Sum(nil) and Sum(prefix) must equal the reference CMAC of the bytes since the last Reset, Sum must leave the complete private state dump unchanged; states merged only on identical private state (tag, x incl. stale bytes, nx, len) + model length; " +
 		"plus every two-way split Write(m[:i]);Write(m[i:]) of every length 0..3*bs+1. E1 other seven: all pairs and triples MAC(m1);MAC(m2);MAC(m1) over 8 lengths on one object. " +
@@ -359,18 +359,40 @@ func (r *refCtx) judge(t *engine.T, what string, m []byte, size int, got []byte,
 // ---------------------------------------------------------------------------------------------
 // E2
 
-func withCap(m []byte, bs int, spare bool) []byte {
-	if !spare {
-		b := make([]byte, len(m))
-		copy(b, m)
-		return b[:len(m):len(m)]
+var capModes = []string{"exact", "ample", "fit", "fit-1", "fit+1", "fit3", "fit3+1"}
+
+// withCap returns m in a buffer whose capacity is chosen by mode; spare bytes are dirty (0xEE).
+// fit = exactly the padded length of a trailing padding (method 2), fit3 = exactly method 3's total length.
+func withCap(m []byte, bs int, mode int) []byte {
+	fit := len(m) + bs - len(m)%bs
+	o3 := (bs - len(m)%bs) % bs
+	if len(m) == 0 {
+		o3 = bs
 	}
-	b := make([]byte, len(m)+3*bs)
+	c := len(m)
+	switch mode {
+	case 1:
+		c = len(m) + 3*bs
+	case 2:
+		c = fit
+	case 3:
+		c = fit - 1
+	case 4:
+		c = fit + 1
+	case 5:
+		c = len(m) + o3 + bs
+	case 6:
+		c = len(m) + o3 + bs + 1
+	}
+	if c < len(m) {
+		c = len(m)
+	}
+	b := make([]byte, c)
 	copy(b, m)
-	for i := len(m); i < len(b); i++ {
+	for i := len(m); i < c; i++ {
 		b[i] = 0xEE
 	}
-	return b[:len(m)]
+	return b[:len(m):c]
 }
 
 func e2(t *engine.T, sc schemeSpec, cs cipherSpec, ki int, p macref.Padding) {
@@ -392,7 +414,8 @@ func e2(t *engine.T, sc schemeSpec, cs cipherSpec, ki int, p macref.Padding) {
 		}
 		for n := 0; n <= 4*bs+1; n++ {
 			m := msg(n)
-			for _, spare := range []bool{false, true} {
+			for cm := range capModes {
+				spare := cm > 0
 				o := obj
 				if sc.name == "cmac" {
 					o = newImpl(sc, cs, ki, size, p, false) // fresh object: histories are E1's business
@@ -404,7 +427,7 @@ func e2(t *engine.T, sc schemeSpec, cs cipherSpec, ki int, p macref.Padding) {
 					}
 					t.Fail(key, "%s/%s: Size() = %d for requested tag size %d", sc.name, cs.name, o.Size(), size)
 				}
-				src := withCap(m, bs, spare)
+				src := withCap(m, bs, cm)
 				tag, pv := safeMAC(o, src)
 				t.Eval(1)
 				ok := r.judge(t, "MAC(m)", m, size, tag, pv, spare)
@@ -425,7 +448,7 @@ func e2(t *engine.T, sc schemeSpec, cs cipherSpec, ki int, p macref.Padding) {
 					t.Outcome(sc.name + "/mismatch")
 				}
 				if dflt != nil && !spare {
-					tag2, pv2 := safeMAC(dflt, withCap(m, bs, false))
+					tag2, pv2 := safeMAC(dflt, withCap(m, bs, 0))
 					t.Eval(1)
 					r.judge(t, "MAC(m) of the default-padding constructor", m, size, tag2, pv2, false)
 				}
@@ -605,7 +628,7 @@ func histories(t *engine.T, sc schemeSpec, cs cipherSpec, ki int, p macref.Paddi
 				obj := newImpl(sc, cs, ki, size, p, false)
 				for step, n := range []int{n1, n2, n1} {
 					m := msg(n)
-					tag, pv := safeMAC(obj, withCap(m, bs, false))
+					tag, pv := safeMAC(obj, withCap(m, bs, 0))
 					t.Eval(1)
 					t.AddTransitions(1)
 					if !r.judge(t, fmt.Sprintf("call #%d of MAC(%d);MAC(%d);MAC(%d) on one object", step+1, n1, n2, n1), m, size, tag, pv, false) {
@@ -640,7 +663,7 @@ func injectivity(t *engine.T, sc schemeSpec, cs cipherSpec, ki int, p macref.Pad
 		}
 		tags := map[string]who{}
 		add := func(w who) {
-			tag, pv := safeMAC(obj(), withCap(w.m, bs, false))
+			tag, pv := safeMAC(obj(), withCap(w.m, bs, 0))
 			t.Eval(1)
 			if pv != nil {
 				key, _ := r.mismatchKey(w.m, bs, nil, refOut{}, false)
